@@ -19,6 +19,7 @@ import (
 	"errors"
 	"fmt"
 	"io"
+	"math"
 	"net/http"
 	"strconv"
 	"strings"
@@ -422,7 +423,18 @@ func restDecodeTimeout(timeout string) (time.Duration, error) {
 	if err != nil {
 		return 0, fmt.Errorf("invalid timeout %q: %w", timeout, err)
 	}
-	return time.Duration(val * float64(time.Second)), nil
+	if math.IsNaN(val) || val < 0 {
+		return 0, fmt.Errorf("invalid timeout %q: must be a non-negative number of seconds", timeout)
+	}
+	nanos := math.Round(val * float64(time.Second))
+	if nanos >= float64(math.MaxInt64) {
+		// Beyond the representable range: effectively unbounded.
+		return time.Duration(math.MaxInt64), nil
+	}
+	if nanos/float64(time.Second) > val {
+		nanos-- // never extend the client's timeout
+	}
+	return time.Duration(nanos), nil
 }
 
 // Encode timeout as a float in seconds for X-Server-Timeout header.
